@@ -121,6 +121,7 @@ class World(object):
         self.dispatch_seen = set()
         self.delivered_events = {}
         self.render_attempted = set()
+        self.render_ctx = {}
         self.resting_points = []
 
     # ------------------------------------------------------------------ reporting
@@ -367,6 +368,8 @@ class World(object):
         if st_before in ("running", "resuming", "requested", "scheduled", "delayed"):
             for c in self.ledger.open_credits():
                 self.render_attempted.add(c.task)
+                if c.ref is not None:
+                    self.render_ctx[c.task] = c.ref.values()
         tasks = self.call("get_next_tasks")
         self.after_call("get_next_tasks")
         if self.o.get("chain"):
@@ -1318,7 +1321,7 @@ class World(object):
             tw = (self.p["tasks"].get(T) or {}).get("with")
             if expected and tw and pos in ("input", "action") and tw["items"][0] == "ctx":
                 # the action and input of a with-items task are rendered per item: never for []
-                expected = bool(L.root.values().get(tw["items"][1]))
+                expected = bool((self.render_ctx.get(T) or L.root.values()).get(tw["items"][1]))
         if expected:
             self.bump("probe_data_fault_fired")
             if pos not in ("vars", "wf_input", "output"):
